@@ -1,2 +1,128 @@
-/- C11 property theorems (under construction) -/
+/-
+C11 — Field-element encodings and conversions are canonical and consistent.
+
+The statements are about the model of the wrappers' glue (Model/Glue.lean) for the three concrete fields, with
+`FIELD_SIZE_POWER_OF_TWO` etc. read from the generated constants.  Backend primitives (`from_raw_bytes` on exactly
+N_8 bytes = reduction mod p; Montgomery arithmetic) enter by contract, see DESIGN.md §4.
+-/
+import Decaf.Lemmas.Glue
 import Decaf.Model.Exec
+import Decaf.Props.C17
+
+namespace C11
+open Model Model.Exec
+
+/-- the three fields satisfy the side conditions of the glue lemmas (kernel-evaluated on the generated constants) -/
+theorem fq_ok : 0 < fqP.n8 ∧ 0 < fqP.m ∧ fqP.fspt % fqP.m = 256 ^ fqP.n8 % fqP.m ∧ fqP.m ≤ 256 ^ fqP.n8 ∧ fqP.m < (2 ^ 64) ^ fqP.nl := by
+  decide +kernel
+theorem fr_ok : 0 < frP.n8 ∧ 0 < frP.m ∧ frP.fspt % frP.m = 256 ^ frP.n8 % frP.m ∧ frP.m ≤ 256 ^ frP.n8 ∧ frP.m < (2 ^ 64) ^ frP.nl := by
+  decide +kernel
+theorem fp_ok : 0 < fpP.n8 ∧ 0 < fpP.m ∧ fpP.fspt % fpP.m = 256 ^ fpP.n8 % fpP.m ∧ fpP.m ≤ 256 ^ fpP.n8 ∧ fpP.m < (2 ^ 64) ^ fpP.nl := by
+  decide +kernel
+
+/-- **reduction of byte strings of ANY length equals the integer modulo p** (little endian) -/
+theorem from_le_bytes_mod_order_spec (bs : List ℕ) :
+    fqP.fromLeBytesModOrder bs = leBytes bs % q ∧ frP.fromLeBytesModOrder bs = leBytes bs % r ∧
+    fpP.fromLeBytesModOrder bs = leBytes bs % p :=
+  ⟨FP.fromLeBytesModOrder_spec fqP fq_ok.1 fq_ok.2.1 fq_ok.2.2.1 bs,
+   FP.fromLeBytesModOrder_spec frP fr_ok.1 fr_ok.2.1 fr_ok.2.2.1 bs,
+   FP.fromLeBytesModOrder_spec fpP fp_ok.1 fp_ok.2.1 fp_ok.2.2.1 bs⟩
+
+/-- big endian: the integer read from the reversed string -/
+theorem from_be_bytes_mod_order_spec (bs : List ℕ) :
+    fqP.fromBeBytesModOrder bs = leBytes bs.reverse % q ∧ frP.fromBeBytesModOrder bs = leBytes bs.reverse % r ∧
+    fpP.fromBeBytesModOrder bs = leBytes bs.reverse % p :=
+  ⟨FP.fromBeBytesModOrder_spec fqP fq_ok.1 fq_ok.2.1 fq_ok.2.2.1 bs,
+   FP.fromBeBytesModOrder_spec frP fr_ok.1 fr_ok.2.1 fr_ok.2.2.1 bs,
+   FP.fromBeBytesModOrder_spec fpP fp_ok.1 fp_ok.2.1 fp_ok.2.2.1 bs⟩
+
+/-- **checked parsing accepts exactly the integers below p** (all three fields) -/
+theorem from_bytes_checked_iff (bs : List ℕ) (hb : ∀ b ∈ bs, b < 256) (v : ℕ) :
+    (bs.length = 32 → (fqP.fromBytesChecked bs = some v ↔ leBytes bs < q ∧ v = leBytes bs)) ∧
+    (bs.length = 32 → (frP.fromBytesChecked bs = some v ↔ leBytes bs < r ∧ v = leBytes bs)) ∧
+    (bs.length = 48 → (fpP.fromBytesChecked bs = some v ↔ leBytes bs < p ∧ v = leBytes bs)) :=
+  ⟨fun hl => FP.fromBytesChecked_iff fqP fq_ok.2.2.2.1 fq_ok.2.1 bs hl hb v,
+   fun hl => FP.fromBytesChecked_iff frP fr_ok.2.2.2.1 fr_ok.2.1 bs hl hb v,
+   fun hl => FP.fromBytesChecked_iff fpP fp_ok.2.2.2.1 fp_ok.2.1 bs hl hb v⟩
+
+/-- **serialisation emits the canonical little-endian form**, which parses back to the same element -/
+theorem to_bytes_canonical (x : ℕ) :
+    (x < q → (fqP.toBytesLe x).length = 32 ∧ leBytes (fqP.toBytesLe x) = x ∧ fqP.fromBytesChecked (fqP.toBytesLe x) = some x) ∧
+    (x < r → (frP.toBytesLe x).length = 32 ∧ leBytes (frP.toBytesLe x) = x ∧ frP.fromBytesChecked (frP.toBytesLe x) = some x) ∧
+    (x < p → (fpP.toBytesLe x).length = 48 ∧ leBytes (fpP.toBytesLe x) = x ∧ fpP.fromBytesChecked (fpP.toBytesLe x) = some x) := by
+  refine ⟨fun hx => ?_, fun hx => ?_, fun hx => ?_⟩
+  · have := FP.toBytesLe_spec fqP fq_ok.2.2.2.1 x hx
+    exact ⟨this.1, this.2.1, FP.fromBytesChecked_toBytesLe fqP fq_ok.2.2.2.1 fq_ok.2.1 x hx⟩
+  · have := FP.toBytesLe_spec frP fr_ok.2.2.2.1 x hx
+    exact ⟨this.1, this.2.1, FP.fromBytesChecked_toBytesLe frP fr_ok.2.2.2.1 fr_ok.2.1 x hx⟩
+  · have := FP.toBytesLe_spec fpP fp_ok.2.2.2.1 x hx
+    exact ⟨this.1, this.2.1, FP.fromBytesChecked_toBytesLe fpP fp_ok.2.2.2.1 fp_ok.2.1 x hx⟩
+
+/-- limbs of a canonical value -/
+theorem toLimbs_spec (w x n : ℕ) (hx : x < (2 ^ w) ^ n) :
+    (toLimbs w x n).length = n ∧ (∀ l ∈ toLimbs w x n, l < 2 ^ w) ∧ Lit.ofLimbs w (toLimbs w x n) = x := by
+  induction n generalizing x with
+  | zero =>
+    have : x = 0 := by simpa using hx
+    subst this; simp [toLimbs, Lit.ofLimbs]
+  | succ n ih =>
+    have hx' : x / 2 ^ w < (2 ^ w) ^ n := by
+      rw [Nat.div_lt_iff_lt_mul (by positivity)]
+      calc x < (2 ^ w) ^ (n + 1) := hx
+        _ = (2 ^ w) ^ n * 2 ^ w := by rw [pow_succ]
+    obtain ⟨h1, h2, h3⟩ := ih _ hx'
+    refine ⟨by simp [toLimbs, h1], ?_, ?_⟩
+    · intro l hl
+      simp only [toLimbs, List.mem_cons] at hl
+      rcases hl with rfl | hl
+      · exact Nat.mod_lt _ (by positivity)
+      · exact h2 l hl
+    · simp only [toLimbs, Lit.ofLimbs, h3]
+      exact Nat.mod_add_div x (2 ^ w)
+
+/-- **ordering is integer ordering** -/
+theorem ord_spec (F : FP) (hF : F.m < (2 ^ 64) ^ F.nl) (a b : ℕ) (ha : a < F.m) (hb : b < F.m) :
+    F.cmp a b = compare a b := by
+  unfold FP.cmp FP.toLeLimbs
+  obtain ⟨la, ha2, ha3⟩ := toLimbs_spec 64 a F.nl (lt_trans ha hF)
+  obtain ⟨lb, hb2, hb3⟩ := toLimbs_spec 64 b F.nl (lt_trans hb hF)
+  rw [FP.cmpLex_reverse 64 _ _ (by rw [la, lb]) ha2 hb2, ha3, hb3]
+
+theorem ord_spec_all (a b : ℕ) :
+    (a < q → b < q → fqP.cmp a b = compare a b) ∧ (a < r → b < r → frP.cmp a b = compare a b) ∧
+    (a < p → b < p → fpP.cmp a b = compare a b) :=
+  ⟨ord_spec fqP fq_ok.2.2.2.2 a b, ord_spec frP fr_ok.2.2.2.2 a b, ord_spec fpP fp_ok.2.2.2.2 a b⟩
+
+/-- **`from_bigint` accepts exactly the limb arrays denoting integers below p** -/
+theorem from_bigint_iff (F : FP) (modLimbs ls : List ℕ) (hm : Lit.ofLimbs 64 modLimbs = F.m)
+    (hml : ∀ l ∈ modLimbs, l < 2 ^ 64) (hl : ls.length = modLimbs.length) (hls : ∀ l ∈ ls, l < 2 ^ 64) (v : ℕ) :
+    F.fromBigint ls modLimbs = some v ↔ Lit.ofLimbs 64 ls < F.m ∧ v = Lit.ofLimbs 64 ls := by
+  unfold FP.fromBigint FP.fromLeLimbs
+  rw [FP.cmpLex_reverse 64 ls modLimbs hl hls hml, hm]
+  by_cases hlt : Lit.ofLimbs 64 ls < F.m
+  · have : compare (Lit.ofLimbs 64 ls) F.m = .lt := Nat.compare_eq_lt.mpr hlt
+    simp only [this, bne_self_eq_false, Bool.false_eq_true, if_false, Option.some.injEq, Nat.mod_eq_of_lt hlt]
+    exact ⟨fun h => ⟨hlt, h.symm⟩, fun h => h.2.symm⟩
+  · have : (compare (Lit.ofLimbs 64 ls) F.m != .lt) = true := by
+      rcases Nat.lt_or_ge (Lit.ofLimbs 64 ls) F.m with h | h
+      · exact absurd h hlt
+      · rcases Nat.eq_or_lt_of_le h with h | h
+        · rw [← h]; simp [Nat.compare_eq_eq.mpr rfl]
+        · simp [Nat.compare_eq_gt.mpr h]
+    simp only [this, if_true, reduceCtorEq, false_iff, not_and]
+    intro h; exact absurd h hlt
+
+/-- hashing is consistent with equality: the hash input is the canonical byte string -/
+theorem hash_spec (x y : ℕ) (hx : x < q) (hy : y < q) : fqP.toBytesLe x = fqP.toBytesLe y ↔ x = y := by
+  constructor
+  · intro h
+    have := congrArg leBytes h
+    rwa [(FP.toBytesLe_spec fqP fq_ok.2.2.2.1 x hx).2.1, (FP.toBytesLe_spec fqP fq_ok.2.2.2.1 y hy).2.1] at this
+  · rintro rfl; rfl
+
+/-- non-vacuity: strings longer than two chunks, and the modulus itself -/
+example : fqP.fromLeBytesModOrder (List.replicate 100 255) = (256 ^ 100 - 1) % q := by decide +kernel
+example : fqP.fromBytesChecked (toLeBytes q 32) = none ∧ fqP.fromBytesChecked (toLeBytes (q - 1) 32) = some (q - 1) := by
+  decide +kernel
+
+end C11
